@@ -38,11 +38,16 @@ pub fn pow2_mod(k: u32, m: u16) -> u16 {
 }
 
 /// Exact C `fmod(x, y)` for x with a significand of at most 12 bits and y with at most 7 bits
-/// (normal numbers, or x = ±0); `None` outside that lattice.
+/// (normal numbers, or x = ±0), and for any finite |x| < |y|; `None` otherwise.
 #[must_use]
 pub fn fmod_lattice(x: f64, y: f64) -> Option<f64> {
     if x == 0.0 {
         return if y.is_finite() && y != 0.0 { Some(x) } else { None };
+    }
+    if x.is_finite() && y.is_finite() && x.abs() < y.abs() {
+        // already reduced (any significand): fmod is the identity — needed for idempotence checks,
+        // whose second wrap receives a value that may have left the short-significand lattice
+        return Some(x);
     }
     let (mx, ex) = decompose(x, 12)?;
     let (my, ey) = decompose(y, 7)?;
@@ -129,6 +134,16 @@ mod tests {
             }
         }
         assert!(huge > 1_000_000, "too few huge-quotient samples: {huge}");
+        // identity fast path: arbitrary significands with |x| < |y|
+        for _ in 0..2_000_000_u64 {
+            let x = f64::from_bits(next());
+            let y = f64::from_bits(next());
+            if x.is_finite() && y.is_finite() && x.abs() < y.abs() {
+                let m = fmod_lattice(x, y).expect("reduced input");
+                assert!(m.to_bits() == (x % y).to_bits(), "identity path x={x:e} y={y:e}");
+                assert!(rem_euclid_lattice(x, y).to_bits() == x.rem_euclid(y).to_bits(), "identity path rem_euclid x={x:e} y={y:e}");
+            }
+        }
         for &(x, y) in &[(0.0, 1.0), (-0.0, 3.0), (1.0, 1.0), (3.0, 0.75), (-7.5, 2.0), (255.0, 7.0), (1.0e-300_f64, 1.0), (-1e-20, 1.0)] {
             if let Some(m) = fmod_lattice(x, y) {
                 assert!(m.to_bits() == (x % y).to_bits(), "{x} {y}");
